@@ -136,10 +136,18 @@ def random_pairwise(rng, m, kind):
         pool = PAIR_STATES
     states = {p: rng.choice(pool) for p in pairs}
     vals = {}
+    # magnitude regime of the whole dictionary: small counts (default), or counts so large / so close that a pairwise defeat is a
+    # relative margin of 10^-9 .. 10^-30 (one vote in 10^9, 2^53, 10^18, 10^30; Fractions differing in the 12th digit)
+    regime = rng.choice(['small'] * 8 + ['big', 'close_fraction'])
+    big = rng.choice([10 ** 9, 2 ** 53, 10 ** 18, 10 ** 30])
     for p in pairs:
         lo = rng.choice([0, 1, 1, 2, 3])
         hi = lo + rng.choice([1, 1, 2, 3])
-        if rng.random() < 0.15:
+        if regime == 'big':
+            lo, hi = big + lo, big + hi
+        elif regime == 'close_fraction':
+            lo, hi = Fraction(1, 3) + Fraction(lo, 10 ** 12), Fraction(1, 3) + Fraction(hi, 10 ** 12)
+        elif rng.random() < 0.15:
             den = rng.choice([2, 3, 4])
             lo, hi = Fraction(lo * den + rng.randint(0, den - 1), den), Fraction(hi * den + den, den)
         vals[p] = (hi, lo)
